@@ -554,6 +554,9 @@ impl<K: KeyT> World<K> {
                     }
                     _ => Shadow::from_list(&parse_list(doc)),
                 };
+                let mut shadow = shadow;
+                // nobody handed this object a limit: "a deserialised interner keeps working as an interner"
+                shadow.limit = Some(usize::MAX);
                 self.slots[si] = Slot { obj: o, shadow, born: "C15" };
                 self.consistency(si);
                 "ok".into()
@@ -642,7 +645,8 @@ impl<K: KeyT> World<K> {
         match res {
             Caught::Ok(Some(Ok(o))) => {
                 let mut sh = self.slots[a].shadow.clone();
-                sh.limit = None;
+                // nobody handed the copy a limit: "a deserialised interner keeps working as an interner"
+                sh.limit = Some(usize::MAX);
                 for s in sh.stat.iter_mut() {
                     *s = None;
                 }
